@@ -5,7 +5,9 @@ PROPERTY = 'C04'
 WHAT = 'explicit'
 
 TOK_G = ['expr', 'dangling', 'nullamb', 'rr_prio', 'amb_inl', 'amb_mid', 'amb_exp1', 'amb_alias', 'amb_null', 'amb_nested_inl', 'amb_nested_inl2', 'shape4', 'shape1', 'hidden_lrec',
-         'nullchain', 'ebnf', 'unitcycle', 'cycle2', 'ss', 'amb4', 'amb4n']
+         'nullchain', 'ebnf', 'unitcycle', 'cycle2', 'ss', 'amb4', 'amb4n', 'amb_shared_inl']
+# the same with maybe_placeholders off (another child-filter class builds the trees)
+TOK_G_MPOFF = ['amb_shared_inl', 'amb_inl', 'amb_nested_inl', 'amb_exp1']
 TXT_G = [('collide', 'dynamic'), ('collide', 'dynamic_complete'), ('nulltxt', 'dynamic_complete'), ('nulltxt', 'dynamic'), ('opttail', 'dynamic_complete'), ('opttail', 'dynamic'),
          ('ignstart', 'dynamic'), ('ignstart', 'dynamic_complete'), ('twostart', 'dynamic'), ('twostart', 'dynamic_complete')]
 TXT_K = {'collide': 5, 'nulltxt': 6, 'opttail': 6, 'ignstart': 4, 'twostart': 3}
@@ -25,6 +27,11 @@ def make_plan(what, tier, seed):
             slices.append({'id': '%s:tok:%s:L%d%s' % (what, g, Lg, '' if pin is None else ':pin%d' % pin), 'module': 'vfw.harness.amb',
                            'params': {'what': what, 'level': 'tok', 'g': g, 'L': Lg, 'pin': pin},
                            'timeout': int((est if pin is None else est / K * 1.5) * 3 + 60), 'twin': pin in (None, 0), 'bound': {'tokens': Lg, 'kinds': K}})
+    for g in TOK_G_MPOFF:
+        K = len(corpus.TOK[g]['names'])
+        Lg = L + 1 if K <= 2 else L
+        slices.append({'id': '%s:tok:%s:mp-off:L%d' % (what, g, Lg), 'module': 'vfw.harness.amb', 'params': {'what': what, 'level': 'tok', 'g': g, 'L': Lg, 'pin': None, 'mp': False},
+                       'timeout': 400 if quick else 2400, 'twin': False, 'bound': {'tokens': Lg, 'kinds': K, 'maybe_placeholders': False}})
     for g, lexer in TXT_G:
         K = TXT_K[g]
         Lt = (3 if quick else 4) + (1 if g in ('opttail', 'ignstart') else 0)
